@@ -1,4 +1,5 @@
 import AFProofs.Lemmas.SamplesIO
+import AFProofs.Lemmas.SamplesStats
 
 /-!
 # C09 — samples survive persistence and reload identically
@@ -21,6 +22,18 @@ the two finding flags; `true` is the behaviour with `fixes/C09-sample-keys-and-z
 * `efficient_roundtrip` — database rows: the samples come back *equal* (keys, order, values).
 * `best_fit_preserved`, `derived_equal`, `csv_best_fit` — best fit, medians and errors are functions
   of what is preserved, hence equal.
+* `quantile_order_free`, `percentile_order_free`, `estimate_converged_order_free` — the weighted quantile
+  (`pdf.quantile`, nested samples) and the percentile (MCMC) the library computes, modelled over exact
+  rationals (`AF.SamplesStats`), depend only on the multiset of (value, weight) pairs - the weighted one
+  provided no value repeats (`quantile_refuted_repeated_value`: with a repeated value the order of the
+  samples matters).
+* `estimates_preserved`, `csv_estimates` — median, values and errors at sigma after reload are those
+  before (now of the modelled computation, not of an abstract statistic).
+* `estimates_follow_parameters`, `summary_lists_partial`, `summary_lists_refuted_when_reordered` — a model
+  that lists the same parameters in another order gets, recomputed, the same estimate per parameter; the
+  plain lists stored in the summary stay in the fitted model's order, so reading them by position is
+  right exactly where both orders agree (known finding `C09-summary-lists-model-order`).
+* `minimise_keeps_best` — the minimised database samples hold the most likely and the most probable sample.
 * `from_lists_lookup`, `text_of_key_reads_back` — the samples of a fit are looked up in parameter
   order; `".".join` / `.split(".")` are inverse on paths of clean names.
 -/
@@ -238,5 +251,181 @@ example : ((toEfficient [mkSample 5 1 2 [(.str ['x'], 0), (.str ['h', '.', 'b'],
       (mapOpt (paramList {} witness)) = some [[0, 8, 9], [3, 0, 4]] := by decide
 example : (toEfficient [fromVector witness 5 1 2 [0, 8, 9], fromVector witness 6 1 2 [3, 0, 4]]).map ofEfficient =
     some [fromVector witness 5 1 2 [0, 8, 9], fromVector witness 6 1 2 [3, 0, 4]] := by decide
+
+/-! ## estimates: the modelled computation (`AF.SamplesStats`) -/
+
+open AF.SamplesStats
+
+/-- **Weighted quantile** (`pdf.quantile`): for samples in any order - the same multiset of
+(value, weight) pairs - the result is the same, provided no value occurs twice. -/
+theorem quantile_order_free (q : Rat) (vw₁ vw₂ : List (Rat × Rat)) (hp : vw₁.Perm vw₂)
+    (hnd : (vw₁.map (·.1)).Nodup) : wquantile q vw₁ = wquantile q vw₂ :=
+  wquantile_eq_of_perm q hp hnd
+
+/-- The guard of `quantile_order_free` is needed: when a value repeats, which of the two samples the
+sort puts first decides the result (numpy's `argsort` does not promise either). -/
+theorem quantile_refuted_repeated_value :
+    [((1 : Rat), (1 / 10 : Rat)), (1, 4 / 10), (2, 3 / 10), (3, 2 / 10)].Perm [(1, 4 / 10), (1, 1 / 10), (2, 3 / 10), (3, 2 / 10)] ∧
+    wquantile (1 / 2) [(1, 1 / 10), (1, 4 / 10), (2, 3 / 10), (3, 2 / 10)] ≠
+      wquantile (1 / 2) [(1, 4 / 10), (1, 1 / 10), (2, 3 / 10), (3, 2 / 10)] := by
+  refine ⟨List.Perm.swap _ _ _, ?_⟩
+  decide +kernel
+
+/-- **Percentile** (`np.percentile`, MCMC samples): a function of the multiset of values. -/
+theorem percentile_order_free (p : Rat) (xs₁ xs₂ : List Rat) (hp : xs₁.Perm xs₂) :
+    percentile p xs₁ = percentile p xs₂ :=
+  percentile_eq_of_perm p hp
+
+/-- **Median and values at sigma of one parameter, converged samples**: the same for every order of
+the samples (pairs of value and weight permuted together), provided no value repeats. The
+unconverged branch reads the most likely sample and the last `ucs` samples: it is a function of the
+sequence, which every reload preserves (`estimates_preserved`). -/
+theorem estimate_converged_order_free (ucs : Nat) (qlow : Rat) (lls₁ lls₂ ws₁ ws₂ col₁ col₂ : List Rat)
+    (hc₁ : converged ws₁ = true) (hc₂ : converged ws₂ = true)
+    (hp : (col₁.zip ws₁).Perm (col₂.zip ws₂)) (hnd : ((col₁.zip ws₁).map (·.1)).Nodup) :
+    colEstimate ucs qlow lls₁ ws₁ col₁ = colEstimate ucs qlow lls₂ ws₂ col₂ := by
+  unfold colEstimate
+  simp only [hc₁, hc₂, if_true]
+  rw [wquantile_eq_of_perm _ hp hnd, wquantile_eq_of_perm _ hp hnd, wquantile_eq_of_perm _ hp hnd]
+
+example : converged [3 / 10, 5 / 10, 2 / 10] = true ∧ converged [2 / 10, 3 / 10, 5 / 10] = true ∧
+    ([(7 : Rat), 2, 9].zip [(3 / 10 : Rat), 5 / 10, 2 / 10]).Perm ([(9 : Rat), 7, 2].zip [(2 / 10 : Rat), 3 / 10, 5 / 10]) ∧
+    (([(7 : Rat), 2, 9].zip [(3 / 10 : Rat), 5 / 10, 2 / 10]).map (·.1)).Nodup ∧
+    colEstimate 100 (1 / 10) [1, 2, 3] [3 / 10, 5 / 10, 2 / 10] [7, 2, 9] = some ⟨6, 14 / 5, 127 / 15⟩ := by
+  refine ⟨by decide +kernel, by decide +kernel, ?_, by decide +kernel, by decide +kernel⟩
+  show [((7 : Rat), (3 / 10 : Rat)), (2, 5 / 10), (9, 2 / 10)].Perm [(9, 2 / 10), (7, 3 / 10), (2, 5 / 10)]
+  exact ((List.Perm.swap _ _ _).cons _).trans (List.Perm.swap _ _ _)
+
+/-- **Estimates after reload.** Samples with the same likelihoods, weights and looked-up parameter
+values have the same median / values / errors at sigma (`SamplesPDF`, both branches) and the same
+MCMC estimates. -/
+theorem estimates_preserved (cfg : Cfg) (ucs : Nat) (qlow : Rat) (sh : Shape) (ss ss' : List (Sample Rat))
+    (hll : ss'.map (·.ll) = ss.map (·.ll)) (hw : ss'.map (·.w) = ss.map (·.w))
+    (hp : mapOpt (paramList cfg sh) ss' = mapOpt (paramList cfg sh) ss) :
+    estimates cfg ucs qlow sh ss' = estimates cfg ucs qlow sh ss ∧
+      estimatesMCMC cfg qlow sh ss' = estimatesMCMC cfg qlow sh ss := by
+  unfold estimates estimatesMCMC
+  rw [hll, hw, hp]
+  exact ⟨rfl, rfl⟩
+
+/-- table round trip, end to end: the estimates computed from the loaded table are the fit's -/
+theorem csv_estimates (cfg : Cfg) (ops : VOps Rat) (ucs : Nat) (qlow : Rat) {sh : Shape} (wf : WF sh)
+    (hr : Route cfg sh) (pads : List Nat) (shw : Rat → T) (rd : T → Rat) (hrd : ∀ x, rd (shw x) = x)
+    (ss : List (Sample Rat)) (tb : Table T) (hsave : saveCsv cfg ops sh pads shw ss = some tb) :
+    (loadCsv rd tb).bind (estimates cfg ucs qlow sh) = estimates cfg ucs qlow sh ss ∧
+      (loadCsv rd tb).bind (estimatesMCMC cfg qlow sh) = estimatesMCMC cfg qlow sh ss := by
+  obtain ⟨ss', pss, h1, h2, _, h4, h5, h6⟩ := csv_roundtrip cfg ops wf hr pads shw rd hrd ss tb hsave
+  rw [h1]
+  exact estimates_preserved cfg ucs qlow sh ss ss' h2 h4 (h5.trans h6.symm)
+
+/-- **Estimates follow the parameters.** A model listing the same parameters in another order
+(`reorder idx sh`: what comes back from `model.json` / the database) gives, recomputed from the same
+samples, for its parameter `k` the estimate the fitted model has for its parameter `idx[k]`: per
+parameter path nothing changes. Holds for any per-column statistic. -/
+theorem estimates_follow_parameters {R} (cfg : Cfg) (stat : List Rat → Option R) (sh : Shape)
+    (ss : List (Sample Rat)) (rows : List (List Rat)) (h : mapOpt (paramList cfg sh) ss = some rows)
+    (idx : List Nat) (hidx : ∀ i ∈ idx, i < sh.length) :
+    (mapOpt (paramList cfg (reorder idx sh)) ss).map (perColumn (reorder idx sh).length stat) =
+      some (permuteRow idx (perColumn sh.length stat rows)) := by
+  rw [paramLists_reorder cfg sh idx hidx ss rows h]
+  simp only [Option.map_some, reorder, List.length_map]
+  rw [perColumn_permute stat sh.length idx hidx rows]
+
+/-- **The lists stored in the summary, read by position** (`errors_at_sigma_1`, `values_at_sigma_3`, …:
+plain lists in the fitted model's order). Entry `k`, attributed to parameter `k` of the attached
+model, is that parameter's estimate whenever the attached model lists parameter `k` where the fitted
+model does (`idx[k] = k`); in general it is the estimate of the fitted model's parameter `k`, while
+parameter `k` of the attached model is the fitted model's parameter `idx[k]`. -/
+theorem summary_lists_partial (cfg : Cfg) (ucs : Nat) (qlow : Rat) (sh : Shape) (ss : List (Sample Rat))
+    (stored : List (Option Est)) (hst : estimates cfg ucs qlow sh ss = some stored)
+    (idx : List Nat) (hidx : ∀ i ∈ idx, i < sh.length) :
+    ∃ fresh, estimates cfg ucs qlow (reorder idx sh) ss = some fresh ∧
+      (∀ k (hk : k < idx.length), fresh[k]? = stored[idx[k]]?) ∧
+      (∀ k (hk : k < idx.length), idx[k] = k → attributed stored k = fresh[k]?) := by
+  unfold estimates at hst
+  cases hrows : mapOpt (paramList cfg sh) ss with
+  | none => rw [hrows] at hst; cases hst
+  | some rows =>
+    rw [hrows] at hst
+    cases hst
+    have key := estimates_follow_parameters cfg
+      (colEstimate ucs qlow (ss.map (·.ll)) (ss.map (·.w))) sh ss rows hrows idx hidx
+    refine ⟨_, key, ?_, ?_⟩
+    · intro k hk
+      have hin : idx[k] < sh.length := hidx _ (List.getElem_mem hk)
+      simp [permuteRow, hk, perColumn, hin]
+    · intro k hk hfix
+      have hin : idx[k] < sh.length := hidx _ (List.getElem_mem hk)
+      have hk2 : k < sh.length := hfix ▸ hin
+      simp [attributed, permuteRow, hk, perColumn, hfix, hk2]
+
+/-- the attached model lists the parameters as the fitted one did: nothing is reordered, every entry of
+the stored lists is attributed to its own parameter (`summary_lists_partial` with `idx[k] = k`) -/
+theorem reorder_same_order (sh : Shape) : reorder (List.range sh.length) sh = sh := by
+  unfold reorder
+  apply List.ext_getElem
+  · simp
+  · intro k h1 h2
+    simp [List.getD, h2]
+
+/-- two parameters, three converged samples -/
+def twoParams : Shape :=
+  [{ paths := [[['g'], ['a']]], names := [['g', '.', 'a']], uniq := [['g'], ['a']] },
+   { paths := [[['g'], ['b']]], names := [['g', '.', 'b']], uniq := [['g'], ['b']] }]
+
+def threeSamples : List (Sample Rat) :=
+  [fromVector twoParams 1 0 (3 / 10) [7, 70], fromVector twoParams 2 0 (5 / 10) [2, 20],
+   fromVector twoParams 3 0 (2 / 10) [9, 90]]
+
+/-- Known finding `C09-summary-lists-model-order`: when the attached model lists the two parameters
+the other way round, the stored list read by position attributes to each parameter the estimate of
+the other one, although recomputing from the reloaded samples gives the right one. -/
+theorem summary_lists_refuted_when_reordered :
+    WF twoParams ∧
+    ∃ stored fresh, estimates {} 100 (1 / 10) twoParams threeSamples = some stored ∧
+      estimates {} 100 (1 / 10) (reorder [1, 0] twoParams) threeSamples = some fresh ∧
+      attributed stored 0 ≠ fresh[0]? ∧ attributed stored 0 = fresh[1]? := by
+  refine ⟨by decide, _, _, rfl, rfl, ?_, ?_⟩ <;> decide +kernel
+
+example : estimates {} 100 (1 / 10) twoParams threeSamples =
+    some [some ⟨6, 14 / 5, 127 / 15⟩, some ⟨60, 28, 254 / 3⟩] := by decide +kernel
+
+example : estimatesMCMC {} (3 / 10) twoParams threeSamples =
+    some [some ⟨7, 5, 39 / 5⟩, some ⟨70, 50, 78⟩] := by decide +kernel
+
+-- non-vacuity: the hypotheses of `csv_estimates`, `estimates_follow_parameters`, `summary_lists_partial`,
+-- `quantile_order_free` are met by concrete inputs, and the conclusions are not trivially `none = none`
+example : mapOpt (paramList {} twoParams) threeSamples = some [[7, 70], [2, 20], [9, 90]] ∧
+    (∀ i ∈ [1, 0], i < twoParams.length) ∧ Route {} twoParams := by decide +kernel
+example : (saveCsv {} ratOps twoParams [0, 2] id threeSamples).isSome = true := by decide +kernel
+example : ((saveCsv {} ratOps twoParams [0, 2] id threeSamples).bind (loadCsv id)).bind (estimates {} 100 (1 / 10) twoParams) =
+    some [some ⟨6, 14 / 5, 127 / 15⟩, some ⟨60, 28, 254 / 3⟩] := by decide +kernel
+example : estimates {} 100 (1 / 10) (reorder [1, 0] twoParams) threeSamples =
+    some [some ⟨60, 28, 254 / 3⟩, some ⟨6, 14 / 5, 127 / 15⟩] := by decide +kernel
+example : [((7 : Rat), (3 / 10 : Rat)), (2, 5 / 10), (9, 2 / 10)].Perm [(9, 2 / 10), (7, 3 / 10), (2, 5 / 10)] ∧
+    ([((7 : Rat), (3 / 10 : Rat)), (2, 5 / 10), (9, 2 / 10)].map (·.1)).Nodup ∧
+    wquantile (1 / 2) [(9, 2 / 10), (7, 3 / 10), (2, 5 / 10)] = some 6 := by
+  refine ⟨((List.Perm.swap _ _ _).cons _).trans (List.Perm.swap _ _ _), by decide +kernel, by decide +kernel⟩
+-- unconverged branch: entry of the most likely sample, range of the last `ucs` samples
+example : colEstimate 2 (1 / 10) [1, 5, 3] [1, 0, 0] [7, 2, 9] = some ⟨2, 2, 9⟩ := by decide +kernel
+
+/-- **Minimised samples** (`Samples.minimise`, what the database keeps of a fit unless asked for all):
+they are the most likely and the most probable sample, nothing else. -/
+theorem minimise_keeps_best (ops : VOps V) (ss : List (Sample V)) (hne : ss ≠ []) :
+    ∃ i j, argmaxFirst ops.gt (ss.map (·.ll)) = some i ∧ maxPostIndex ops ss = some j ∧
+      i ∈ minimiseIdx ops ss ∧ j ∈ minimiseIdx ops ss ∧ ∀ k ∈ minimiseIdx ops ss, k = i ∨ k = j := by
+  cases ss with
+  | nil => exact absurd rfl hne
+  | cons s rest =>
+    refine ⟨_, _, rfl, rfl, ?_⟩
+    unfold minimiseIdx maxPostIndex
+    simp only [List.map_cons, argmaxFirst]
+    generalize argmaxGo ops.gt (List.map (fun x => x.ll) rest) 1 0 s.ll = i
+    generalize argmaxGo ops.gt (List.map (fun s => ops.add s.ll s.lp) rest) 1 0 (ops.add s.ll s.lp) = j
+    by_cases hij : i = j
+    · simp [hij]
+    · by_cases hlt : i < j <;> simp [hij, hlt] <;> omega
+
+example : minimiseIdx natOps [mkSample 5 1 1 [], mkSample 6 0 1 [], mkSample 2 9 (1 : Nat) []] = [1, 2] := by decide
 
 end AF.C09
